@@ -60,6 +60,8 @@ def gen_model(r, slices=("F1",), n_classes=None, prims=None):
         classes.append(c)
     # inheritance (F3): class i may extend an earlier... later class (fields come later)
     model = {"module_ns": module_ns, "classes": classes, "enums": enums, "root": "C0", "slices": sorted(slices)}
+    # the effective namespace of a class without Meta.namespace depends on where it is used (it inherits the
+    # parent's): ##targetNamespace constraints are only generated for classes that declare their namespace
     # fields: class i may only reference classes with larger index (no recursion => finite instances)
     for i, c in enumerate(classes):
         later = [x["name"] for x in classes[i + 1:]]
@@ -67,6 +69,7 @@ def gen_model(r, slices=("F1",), n_classes=None, prims=None):
         # simple content (Text + attributes) or complex content (elements): a Text field next to
         # child elements is not a supported shape (documented: Text = simple content value)
         simple = r.random() < 0.25
+        c["simple"] = simple
         used_text = not simple
         seq_group = None
         for j in range(nf):
@@ -77,20 +80,34 @@ def gen_model(r, slices=("F1",), n_classes=None, prims=None):
                 used_text = True
             c["fields"].append(f)
         # a mixed wildcard absorbs every child element: such a class has attributes + that field only
+        if not c["meta"].get("namespace"):
+            for f in c["fields"]:
+                if f.get("namespace") == "##targetNamespace":
+                    f["namespace"] = "##any"
         mixed = [f for f in c["fields"] if f.get("mixed")]
         if mixed:
             c["fields"] = [f for f in c["fields"] if f["kind"] in ("Attribute", "Attributes") or f is mixed[0]]
         # a sequence group: two or three list element fields rendered interleaved
-        if r.random() < 0.25:
-            g = [f for f in c["fields"] if f["kind"] == "Element" and f.get("list") and not f.get("wrapper") and not f.get("tokens")]
-            if len(g) >= 2:
-                for f in g[:3]:
-                    f["sequence"] = 1
+        if r.random() < 0.3:
+            # fields of a sequence group must be adjacent (next_value slices attrs[index:end+1])
+            def elig(f):
+                return f["kind"] == "Element" and f.get("list") and not f.get("wrapper") and not f.get("tokens")
+            fs = c["fields"]
+            for a in range(len(fs) - 1):
+                if elig(fs[a]) and elig(fs[a + 1]):
+                    run = [fs[a], fs[a + 1]] + ([fs[a + 2]] if a + 2 < len(fs) and elig(fs[a + 2]) else [])
+                    for f in run:
+                        f["sequence"] = 1
+                    break
     if "F3" in slices and len(classes) >= 2 and r.random() < 0.6:
         # make the last class a subclass of the one before it, used through xsi:type
         sub, base = classes[-1], classes[-2]
-        if not any(fl.get("type") == ("class", sub["name"]) for fl in base["fields"]):
+        if not any(fl.get("type") == ("class", sub["name"]) for fl in base["fields"]) and sub.get("simple") == base.get("simple") \
+                and not (sub.get("simple") and any(f["kind"] == "Text" for f in base["fields"]) and any(f["kind"] == "Text" for f in sub["fields"])) \
+                and not any(f["kind"] in ("Wildcard", "Attributes") for f in base["fields"] + sub["fields"]):
             sub["base"] = base["name"]
+            for f in sub["fields"]:
+                f["name"] = "g" + f["name"][1:]          # do not override inherited fields
             # dataclass inheritance: subclass fields need defaults if base has defaults -> all fields get defaults (see render)
     return model
 
@@ -430,7 +447,12 @@ def gen_value(r, m, f, depth, class_ns=None):
             tp = ch["type"]
             if tp[0] == "class":
                 return gen_instance(r, m, tp[1], depth + 1)
-            return gen_prim(r, m, tp)
+            p = gen_prim(r, m, tp)
+            if p.get("__p__") == "str":
+                # the value chooses the element by converter.test in declaration order (documented
+                # priority): keep strings that no other choice type accepts
+                p["v"] = "s-" + p["v"].strip()
+            return p
         if f.get("list"):
             return [one() for _ in range(r.choice([0, 1, 2, 3]))]
         return one() if r.random() < 0.7 else None
